@@ -123,6 +123,9 @@ class Oracle:
     def on_new(self, ctx):
         pass
 
+    def before_edit(self, ctx, op):
+        pass
+
     def on_edit(self, ctx, op, out):
         pass
 
@@ -229,6 +232,7 @@ def execute(plan, oracle):
                 if op['op'] == 'restart':
                     _restart(ctx, oracle, op)
                     continue
+                oracle.before_edit(ctx, op)
                 out = d.apply(op)
                 ctx.event(op['op'], out.ok, out.etype, tuple(w.clock.readings))
                 if not out.ok:
